@@ -1455,4 +1455,31 @@ theorem first_diff_cstr : ∀ (l1 l2 : List Byte), 0#8 ∉ l1 → 0#8 ∉ l2 →
     · exact Or.inr ⟨[], a, b, l1 ++ [0#8], l2 ++ [0#8], rfl, rfl, hab, by simp⟩
 
 
+/-- a satisfiable predicate on ℕ has a least witness -/
+theorem exists_least (P : Nat → Prop) : ∀ n, P n → ∃ k, P k ∧ ∀ i, i < k → ¬ P i := by
+  intro n
+  induction n using Nat.strongRecOn with
+  | _ n ih =>
+    intro hn
+    by_cases h : ∃ i, i < n ∧ P i
+    · obtain ⟨i, hi, hp⟩ := h; exact ih i hi hp
+    · exact ⟨n, hn, fun i hi hp => h ⟨i, hi, hp⟩⟩
+
+
+/-- the LAST occurrence of a member: `l = p ++ c :: r` with `c ∉ r` -/
+theorem last_split {c : Byte} : ∀ {l : List Byte}, c ∈ l → ∃ p r, l = p ++ c :: r ∧ c ∉ r
+  | [], h => by simp at h
+  | a :: l, h => by
+    by_cases hin : c ∈ l
+    · obtain ⟨p, r, e, hr⟩ := last_split hin
+      exact ⟨a :: p, r, by rw [e]; rfl, hr⟩
+    · have : c = a := by
+        simp only [List.mem_cons] at h
+        rcases h with h | h
+        · exact h
+        · exact absurd h hin
+      subst this
+      exact ⟨[], l, rfl, hin⟩
+
+
 end Igris.C08
